@@ -97,7 +97,7 @@ def check(name, tier='quick', where='/repo'):
     assert rc == 0, out
     t0 = time.time()
     try:
-        p = subprocess.run([os.path.join(V, 'bin/vcheck'), prop, tier], capture_output=True, text=True, env=dict(os.environ, VFW_REPO=where))
+        p = subprocess.run([os.path.join(V, 'bin/vcheck'), prop, tier], capture_output=True, text=True, env=dict(os.environ, VFW_REPO=where, VFW_EVIDENCE_DIR=os.path.join(V, '.work', 'evidence_scratch')))
     finally:
         subprocess.run(['git', '-C', where, 'checkout', '--', '.'])
     viol = [l for l in p.stdout.splitlines() if l.startswith('VIOLATION')]
